@@ -464,6 +464,13 @@ class UTPM(Ring, RawAlgorithmsMixIn):
             return UTPM.exp(UTPM.log(self)*r)
         else:
             x_data = self.data
+            if isinstance(r, numpy.ndarray) and r.ndim > 0:
+                # an array of exponents is broadcast against the coefficient axes like in x_0 ** r; with more
+                # axes than x its leading axis must not be paired with the direction axis
+                if r.ndim > self.ndim:
+                    x_data = x_data.reshape(x_data.shape[:2] + (1,)*(r.ndim - self.ndim) + x_data.shape[2:])
+                shp = numpy.broadcast_shapes(x_data.shape[2:], r.shape)
+                x_data = numpy.broadcast_to(x_data, x_data.shape[:2] + shp)
             y_data = numpy.zeros(x_data.shape, dtype=numpy.result_type(x_data.dtype, r))
             self._pow_real(x_data, r, y_data)
             return self.__class__(y_data)
@@ -488,6 +495,9 @@ class UTPM(Ring, RawAlgorithmsMixIn):
 
         if isinstance(r, cls):
             raise NotImplementedError('r must be int or float, or use the identity x**y = exp(log(x)*y)')
+
+        if y.data.shape != x.data.shape:
+            raise NotImplementedError('pullback of x**r with an array r that broadcasts x is not implemented')
 
         cls._pb_pow_real(ybar.data, x.data, r, y.data, out = xbar.data)
         return xbar
